@@ -34,6 +34,8 @@ def run_prop(prop, tier):
         c.extra["prefix_pairs_replayed"] = mc["replays"]
     # 2. the tree machine
     for cfg in CFGS[tier]:
+        if prop == "C12" and ("paths" in cfg or "siblings" in cfg):
+            continue    # universes without (or with hardly any) cache operation: they belong to C08
         cases = os.path.join(wd, cfg + ".cases.ndjson")
         mc = tlc_mc("MC_RadixTree", cfg, wd, workers=12, cases_out=cases, timeout=6000, xmx="12g")
         require_actions(mc, ["DoInsert", "DoRemove", "DoRetain", "DoCache"])
